@@ -625,14 +625,14 @@ func (w *c01World) waitMediumForward() {
 		return // the channel runs without a medium: nothing is queued
 	}
 	before := w.tr.count()
-	deadline := time.Now().Add(time.Duration(w.sc.MediumDelayMs)*time.Millisecond + 1500*time.Millisecond)
+	deadline := time.Now().Add(time.Duration(w.sc.MediumDelayMs)*time.Millisecond + 15*time.Second) // generous: a loaded machine must not turn into a missing delivery
 	for m.messages.Len() > 0 && time.Now().Before(deadline) {
 		time.Sleep(500 * time.Microsecond)
 	}
 	if m.messages.Len() > 0 {
 		return // never forwarded (the observed log will tell)
 	}
-	settle := time.Now().Add(40 * time.Millisecond)
+	settle := time.Now().Add(2 * time.Second) // polling: returns as soon as the forwarded broadcast reached the transport
 	for w.tr.count() == before && time.Now().Before(settle) {
 		time.Sleep(200 * time.Microsecond)
 	}
